@@ -415,6 +415,24 @@ def apply_model(m, o, created):
             return 'raise', 'no-cert'
         kr['dcert'] = cn
         return 'ok', None
+    if k == 'set_default_key_via':
+        # Identity.set_default_key called on SOME existing identity with a key name that may be stale (deleted) or
+        # belong to another identity: a name that is no key changes nothing; a key becomes the default of its owner
+        i = nb(o['_id'])
+        if i not in m.ids or o['_key'] is None:
+            return 'raise', 'no-identity'
+        oi, rec = _find_key(m, o['_key'])
+        if rec is not None:
+            rec['dkey'] = o['_key']
+        return 'ok', None
+    if k == 'set_default_cert_via':
+        oi, rec = _find_key(m, o['_key']) if o['_key'] is not None else (None, None)
+        if rec is None or o['_cert'] is None:
+            return 'raise', 'no-key'
+        ci, ckn, kr = _find_cert(m, o['_cert'])
+        if kr is not None:
+            kr['dcert'] = o['_cert']
+        return 'ok', None
     if k == 'del_cert':
         cn = o['_cert']
         i, kn, kr = _find_cert(m, cn)
@@ -590,6 +608,15 @@ class Runner:
             if kn is None:
                 raise KeyError('no such cert (harness)')
             kc[Name.from_bytes(i)][Name.from_bytes(kn)].set_default_cert(Name.from_bytes(o['_cert']))
+        elif k == 'set_default_key_via':
+            if o['_key'] is None:
+                raise KeyError('no key yet (harness)')
+            kc[o['_id']].set_default_key(Name.from_bytes(o['_key']))
+        elif k == 'set_default_cert_via':
+            i, _rec = _find_key(w.model, o['_key']) if o['_key'] is not None else (None, None)
+            if i is None or o['_cert'] is None:
+                raise KeyError('no such key (harness)')
+            kc[Name.from_bytes(i)][Name.from_bytes(o['_key'])].set_default_cert(Name.from_bytes(o['_cert']))
         elif k == 'del_cert':
             kc.del_cert(Name.from_bytes(o['_cert']))
         elif k == 'del_key':
@@ -1160,9 +1187,16 @@ def generate(rng, seed, tier='quick'):
         elif x < 0.50:
             ops.append({'op': 'set_default_identity', 'id': rng.choice(ids)})
         elif x < 0.56:
-            ops.append({'op': 'set_default_key', 'key': rng.randint(0, 7)})
+            if rng.random() < 0.4:
+                # through an arbitrary identity, with a key name that may be deleted by now or belong elsewhere
+                ops.append({'op': 'set_default_key_via', 'id': rng.choice(ids), 'key': rng.randint(0, 7)})
+            else:
+                ops.append({'op': 'set_default_key', 'key': rng.randint(0, 7)})
         elif x < 0.62:
-            ops.append({'op': 'set_default_cert', 'cert': rng.randint(0, 9)})
+            if rng.random() < 0.25:
+                ops.append({'op': 'set_default_cert_via', 'key': rng.randint(0, 7), 'cert': rng.randint(0, 9)})
+            else:
+                ops.append({'op': 'set_default_cert', 'cert': rng.randint(0, 9)})
         elif x < 0.66:
             ops.append({'op': 'del_cert', 'cert': rng.randint(0, 9)})
         elif x < 0.72:
